@@ -11,7 +11,7 @@ RULE = ('index loading: get_license_index() and the ready-made factories against
         'caller customised the list it was given, and for a custom location whose file is replaced; the shipped index, exhaustively: both ready-made Licensings build; every non-deprecated entry\'s key in 4 letter cases and '
         'every alias in 3 parse to that entry\'s symbol with the flag of the index, render as the canonical key and validate '
         'without errors (exceptions: non-strictly alone, strictly on the right of a WITH); deprecated entries and SPDX entries without '
-        'SPDX key are unknown; random compound expressions over the entries; synthetic indexes with random deprecated / missing-key / '
+        'SPDX key are unknown; random compound expressions over the entries; synthetic indexes (one name in five with a sharp s, a ligature or a final sigma) with random deprecated / missing-key / '
         'alias / exception fields (including a missing is_exception, and a live entry listing the SPDX key of a deprecated one). Correspondence: the loaders\' (key, aliases, flag) tables with '
         'the model\'s buildSpdx / buildScancode, indexOK evaluated by the driver, and a sample of the parses with the model. '
         'non-trivial = a name of a non-deprecated entry; distinct by (table kind, name variant)')
@@ -169,15 +169,18 @@ class Prop(BaseProp):
         n = rng.randint(1, 6)
         idx = []
         for i in range(n):
-            r = {'license_key': 'lic-%d' % i}
+            # one name in five is not ASCII: letters that str.lower() leaves alone and other caseless foldings do not
+            odd = rng.random() < 0.2
+            r = {'license_key': rng.choice(['stra\u00dfe-%d', '\ufb01le-lic-%d', 'lic-\u03bf\u03c2-%d']) % i if odd else 'lic-%d' % i}
             if rng.random() < 0.7:
-                r['spdx_license_key'] = rng.choice(['SPDX-%d' % i, 'LicenseRef-x-%d' % i])
+                r['spdx_license_key'] = (rng.choice(['Gru\u00df-%d', 'LicenseRef-\ufb01le-%d', 'LicenseRef-\u039f\u03bf\u03c2-%d']) % i if odd
+                                         else rng.choice(['SPDX-%d' % i, 'LicenseRef-x-%d' % i]))
             elif rng.random() < 0.5:
                 r['spdx_license_key'] = None
             if rng.random() < 0.5:
                 al = ['old-%d' % i] + (['Older-%d.0' % i] if rng.random() < 0.5 else [])
                 if rng.random() < 0.3:
-                    al.append('old license %d' % i)                       # several words
+                    al.append(('Stra\u00dfen Lizenz %d' if odd else 'old license %d') % i)                       # several words
                 if rng.random() < 0.3:                                       # the same alias again, other case / spacing
                     a = rng.choice(al)
                     al.append(rng.choice([a.upper(), a.swapcase(), a.replace(' ', '  '), ' ' + a, a]))
